@@ -74,7 +74,9 @@ def run(ctx: Ctx) -> None:
             cfg = tlc.make_cfg(spec="Spec", constants=consts, invariants=INV, check_deadlock=False)
             res = tlc.run_tlc("MC_DataShard", cfg, timeout_s=1500, label=label, coverage=True, workers=8)
             ctx.add_tlc(res)
-            if not res.ok:
+            if not res.ok and res.timed_out and not res.violated:
+                ctx.cov.setdefault("model_runs_stopped_by_time_limit", []).append({"scenario": label, "distinct_states_explored": res.distinct, "wall_s": round(res.wall_s, 1)})
+            elif not res.ok:
                 ctx.violation(f"model:{label}", f"TLC: {res.violated or 'timeout'} in the protocol model, scenario '{label}'", res.error_trace[:6000])
             for act in ("ReaderNext", "RReadList", "RReadManifest", "RReturn", "FlipHint"):
                 if res.coverage.get(act, 0) == 0:
